@@ -1363,3 +1363,18 @@ Proof.
   split; [vm_compute; reflexivity|].
   split; vm_compute; reflexivity.
 Qed.
+
+(* the peer's Logout is counted (repair of D22): Logon 1, D 2, Logout 3 -> next_num_in 4, inbound journal 1 2 3,
+   stored inbound counter 3, session closed, the Logout itself is not handed to on_message *)
+Definition i_logout (seq : Z) := OIn (inbound (S "5") seq []) 0.
+Lemma logout_counted_example :
+  let w := final cfg0 w_acceptor [i_logon 1; i_app 2; i_logout 3] in
+  nin w = 4 /\ j_in (jr w) = [1; 2; 3] /\ j_sin (jr w) = 3 /\ st w = ST_DISC_WCONN
+  /\ flat_map delivered (run cfg0 w_acceptor [i_logon 1; i_app 2; i_logout 3]) = [2].
+Proof. cbn zeta. repeat split; vm_compute; reflexivity. Qed.
+
+(* a Logout above the expected number is not counted (and no ResendRequest is written: the session ends) *)
+Lemma logout_gap_not_counted :
+  let w := final cfg0 w_acceptor [i_logon 1; i_logout 5] in
+  nin w = 2 /\ j_in (jr w) = [1] /\ st w = ST_DISC_WCONN.
+Proof. cbn zeta. repeat split; vm_compute; reflexivity. Qed.
